@@ -66,7 +66,10 @@ def one_edit(rng):
     if k == "combo":
         n = rng.choice([0, 1, 2, 3, 5, 8, 9, 10, 12, 20])
         return "combo_colors=" + (",".join(f"{rng.randint(0, 255)}.{rng.randint(0, 255)}.{rng.randint(0, 255)}.255" for _ in range(n)) if n else "-")
-    name = rng.choice(["SliderBorder", "SliderTrackOverride", "My Colour", "x/y", "[Colours]", "naïve"])
+    # names that begin like the lines other osu! readers skip or treat specially (`_`, `-`, digits, `osu file format`, a section name):
+    # in this crate every trimmed name without `:` is a key like any other (seed C03-p: should_skip_line skipping `_…` lines)
+    name = rng.choice(["SliderBorder", "SliderTrackOverride", "My Colour", "x/y", "[Colours]", "naïve", "_editor_selection", "_border", "_", "-x", "0", "osu file format v9",
+                       "combo1", "Sprite", "General", "[x", "x]", "a_b", "#fff", "!", "日本"])
     return f"custom_color={hexs(name.encode())}={rng.randint(0, 255)}.{rng.randint(0, 255)}.{rng.randint(0, 255)}.255"
 
 
